@@ -35,12 +35,16 @@ structure Cfg where
   /-- is an idle connection that a request has been handed (and has not started on yet) exempt from the surplus rule and from
   eviction for room (repaired), or not (1.0.7)? -/
   protectAssigned : Bool
+  /-- does the house-keeping loop close a connection that is neither idle nor held by a request (repaired), or leave it in the
+  pool for ever (1.0.7)?  Uses the same `reserved` list as `protectAssigned`, which it presupposes. -/
+  reclaimAbandoned : Bool := false
 
 /-- why the pass hands a connection to `_close_connections` (ghost information) -/
 inductive Reason
   | expired
   | surplus (idleNow : Nat)   -- idle while "too many": `idleNow` = number of idle connections then
   | room                      -- evicted at the connection limit to make room for a new connection
+  | abandoned                 -- neither idle nor held by any request: the request it was handed to has left
   deriving DecidableEq, Repr
 
 structure State where
@@ -69,6 +73,8 @@ def cleanup (cfg : Cfg) (res : List Nat) : List Conn → List Conn → List (Con
     else if c.expired then cleanup cfg res rest (cur.erase c) (closing ++ [(c, .expired)])
     else if c.idle && !(isReserved res c) && surplusCount cfg cur > cfg.maxKeepalive then
       cleanup cfg res rest (cur.erase c) (closing ++ [(c, .surplus (cur.filter (·.idle)).length)])
+    else if cfg.reclaimAbandoned && !(isReserved res c) && !c.idle then
+      cleanup cfg res rest (cur.erase c) (closing ++ [(c, .abandoned)])
     else cleanup cfg res rest cur closing
 
 /-- one iteration of the second loop, for a queued request -/
